@@ -32,7 +32,7 @@ func init() {
 			"cyclic Go values are not generated; allocation size requested by length prefixes is recorded but is not a verdict",
 			"a per-case watchdog of 20 s (confirmed alone with 60 s) decides 'fails to terminate'",
 		},
-		quick: 640000, thorough: 8000000, minQuick: 100000, minThorough: 2000000,
+		quick: 720000, thorough: 8000000, minQuick: 100000, minThorough: 2000000,
 	}})
 }
 
@@ -124,6 +124,16 @@ type c05NilIfaceMeth struct {
 	fmt.Stringer
 	X int
 }
+type c05Boxed struct{ V interface{} }
+type c05Cents int64
+type c05Ratio float64
+
+func c05SelfIface() interface{} {
+	var p interface{}
+	p = &p
+	return p
+}
+
 type c05Str string
 type c05IntSlice []int
 type c05StrMap map[string]string
@@ -201,6 +211,9 @@ func c05Values() []namedVal {
 		{"cyclic-list", c05Ring()}, {"cyclic-in-list", []interface{}{c05Ring()}}, {"self-map", c05SelfMap()}, {"self-slice", c05SelfSlice()}, {"cyclic-in-map", map[string]interface{}{"p": c05Ring()}},
 		{"nil-embedded-ptr-methods", c05NilPtrMeth{X: 1}}, {"nil-embedded-iface-methods", c05NilIfaceMeth{X: 2}}, {"ptr-nil-embedded-iface", &c05NilIfaceMeth{X: 3}},
 		{"uint16", uint16(9)}, {"hugefloat19", 1e19}, {"str-nan", "nan"}, {"str-inf", "-Infinity"},
+		{"uncomparable-inside", c05Boxed{V: []int{1}}}, {"uncomparable-inside-ptr", &c05Boxed{V: map[string]int{"a": 1}}}, {"self-pointing-iface", c05SelfIface()}, {"map-stringer-keys", map[fmt.Stringer]string{c05Meth{V: 1}: "x"}},
+		{"ptr-to-list", &[]interface{}{1, "a"}}, {"ptr-to-map", &map[string]interface{}{"k": 1}}, {"ptr-to-str", func() *string { s := "héllo"; return &s }()}, {"ptr-to-ptr-list", func() **[]int { l := &[]int{3, 1}; return &l }()},
+		{"named-int", c05Cents(-1234)}, {"named-float", c05Ratio(-2.25)},
 		{"re-slash", "/"}, {"re-mods-unclosed", "/sim"}, {"re-flag-only", "/i"}, {"re-full", "/^h.l+o$/ims"}, {"re-broken", "/(/u"}, {"fmt-verbs", "%d %s %v %[3]d %*d %!"},
 		{"intbig-1", math.MaxInt64 - 1}, {"intmin+1", math.MinInt64 + 1},
 		{"chan", ch}, {"func", func() int { return 1 }}, {"deep", deep}, {"err", fmt.Errorf("an error value")}, {"struct-empty", struct{}{}},
